@@ -771,6 +771,9 @@ func (fox *Router) parseRoute(url string) (uint32, int, error) {
 				}
 				state = stateCatchAll
 				i++
+				if i < len(url) && url[i] != '{' {
+					return 0, -1, fmt.Errorf("%w: illegal character '%s' after '*' catch-all delimiter", ErrInvalidRoute, string(url[i]))
+				}
 				startParam = i
 				paramCnt++
 			} else {
